@@ -12,8 +12,10 @@
 (*               independent reader; ux = the library's own unpack;        *)
 (*               sid/g/ptlen = what the caller asked for;                  *)
 (* k = "cal"     a Windows NCryptProtectSecret blob from tests/data with   *)
-(*               the leaves the library parsed from it (calibration of     *)
-(*               layout, template and projection).                         *)
+(*               the leaves the independent reader found in it             *)
+(*               (calibration of layout, template and projection);         *)
+(* k = "win"     the same blob and leaves with what the library's unpack   *)
+(*               found (ux) and what re-packing that object gives.         *)
 (***************************************************************************)
 EXTENDS Cms, TLC, Json, IOUtils, FiniteSetsExt
 VARIABLE dummy
@@ -58,12 +60,18 @@ CalFails(ln) ==
       p == ParseBlob(b)
   IN (IF b # BlobBytes(ln.x, "envelope") /\ b # BlobBytes(ln.x, "trailing") THEN {"CAL_spec_rendering_differs_from_windows_bytes"} ELSE {})
      \cup (IF ~WindowsTemplateP(p) THEN {"CAL_windows_blob_fails_template"} ELSE {})
-     \cup (IF ~p.ok \/ p.x # ln.x THEN {"CAL_spec_parse_differs_from_library_leaves"} ELSE {})
+     \cup (IF ~p.ok \/ p.x # ln.x THEN {"CAL_spec_parse_differs_from_independent_leaves"} ELSE {})
+
+WinFails(ln) ==
+  IF ln.uexc # "" THEN {"unpack_of_windows_blob_raises"}
+  ELSE (IF ln.ux # ln.x THEN {"unpack_of_windows_blob_differs"} ELSE {})
+       \cup (IF ln.repack # ln.bytes THEN {"repack_of_windows_blob_differs"} ELSE {})
 
 Fails(ln) ==
   CASE ln.k = "pack" -> PackFails(ln)
     [] ln.k = "protect" -> ProtectFails(ln)
     [] ln.k = "cal" -> CalFails(ln)
+    [] ln.k = "win" -> WinFails(ln)
     [] OTHER -> {"MACHINERY_unknown_row_kind"}
 
 Omitted(ln) == ln.k = "pack" /\ ln.exc = "" /\ ln.layout = "envelope" /\ ln.x.content = <<>>
